@@ -685,3 +685,234 @@ Section OtoSpec.
       rewrite D1, D2, D3, D4, D5, D6. reflexivity.
   Qed.
 End OtoSpec.
+
+From Coq Require Import Arith Lia.
+
+(* ------------------------------------------------------------------------------------------------ *)
+(* overlapping derivations                                                                            *)
+(* ------------------------------------------------------------------------------------------------ *)
+Section DerivationFacts.
+  Variable K L S : Type.
+  Variable master : S -> K.
+  Variable child : K -> L -> K.
+
+  Notation dcall := (dcall K L S).
+  Notation step_own := (step_own K L S master child).
+  Notation run_own := (run_own K L S master child).
+  Notation derive_seq := (derive_seq K L S master child).
+
+  (* what is true of a call at every moment, whatever the other calls do *)
+  Definition own_inv (sl : S * list L) (c : dcall) : Prop :=
+    dc_seed c = fst sl /\
+    (forall k, dc_out c = Some k -> k = derive_seq (fst sl) (snd sl)) /\
+    match dc_node c with
+    | None => dc_todo c = snd sl
+    | Some n => fold_left child (dc_todo c) n = derive_seq (fst sl) (snd sl)
+    end.
+
+  Lemma own_inv_init : forall sl, own_inv sl (dcall_init K L S sl).
+  Proof.
+    intros sl; unfold own_inv, dcall_init; cbn. repeat split; intros; discriminate.
+  Qed.
+
+  Lemma own_inv_step : forall sl c, own_inv sl c -> own_inv sl (step_own c).
+  Proof.
+    intros sl c Hinv; pose proof Hinv as (Hs & Ho & Hn); unfold Payloads.step_own.
+    destruct (dc_out c) as [k|] eqn:Eo; [exact Hinv |].
+    destruct (dc_node c) as [n|] eqn:En.
+    - destruct (dc_todo c) as [|l r] eqn:Et; unfold own_inv; cbn.
+      + split; [exact Hs |]. split; [| exact Hn]. intros k Hk; injection Hk as <-. exact Hn.
+      + split; [exact Hs |]. split; [| exact Hn]. intros k Hk; discriminate.
+    - unfold own_inv; cbn. split; [exact Hs |]. split.
+      + intros k Hk; discriminate.
+      + rewrite Hn, Hs. reflexivity.
+  Qed.
+
+  Lemma Forall2_upd_nth : forall (X Y : Type) (R : X -> Y -> Prop) (f : Y -> Y),
+    (forall x y, R x y -> R x (f y)) ->
+    forall i xs ys, Forall2 R xs ys -> Forall2 R xs (upd_nth i f ys).
+  Proof.
+    intros X Y R f Hf i xs ys H; revert i; induction H as [|x y xs ys Hxy H IH]; intros i.
+    - destruct i; constructor.
+    - destruct i; cbn; constructor; auto.
+  Qed.
+
+  Lemma own_inv_run : forall sched inits cs,
+    Forall2 own_inv inits cs -> Forall2 own_inv inits (run_own sched cs).
+  Proof.
+    induction sched as [|i sched IH]; intros inits cs H; [exact H |].
+    unfold Payloads.run_own; cbn [fold_left]. apply IH.
+    apply Forall2_upd_nth; [exact own_inv_step | exact H].
+  Qed.
+
+  Lemma Forall2_nth : forall (X Y : Type) (R : X -> Y -> Prop) xs ys i y,
+    Forall2 R xs ys -> nth_error ys i = Some y -> exists x, nth_error xs i = Some x /\ R x y.
+  Proof.
+    intros X Y R xs ys i y H; revert i; induction H as [|x0 y0 xs ys Hxy H IH]; intros i Hi.
+    - destruct i; discriminate.
+    - destruct i; cbn in *; [injection Hi as <-; eauto | auto].
+  Qed.
+
+  Lemma Forall2_map_r : forall (X Y : Type) (R : X -> Y -> Prop) (g : X -> Y) xs,
+    (forall x, R x (g x)) -> Forall2 R xs (map g xs).
+  Proof. intros X Y R g xs H; induction xs; cbn; constructor; auto. Qed.
+
+  (* SCHEDULE INDEPENDENCE: whatever the interleaving of the steps of any number of overlapping calls, a call that
+     has delivered a result delivered exactly what it computes alone from its own seed and labels *)
+  Theorem own_node_schedule_independent : forall (inits : list (S * list L)) (sched : list nat) i c k,
+    nth_error (run_own sched (map (dcall_init K L S) inits)) i = Some c ->
+    dc_out c = Some k ->
+    exists sl, nth_error inits i = Some sl /\ k = derive_seq (fst sl) (snd sl).
+  Proof.
+    intros inits sched i c k Hn Hk.
+    assert (H : Forall2 own_inv inits (run_own sched (map (dcall_init K L S) inits))).
+    { apply own_inv_run. apply Forall2_map_r. exact own_inv_init. }
+    destruct (Forall2_nth _ _ _ _ _ _ _ H Hn) as (sl & Hsl & (_ & Ho & _)).
+    exists sl; split; [exact Hsl | apply Ho; exact Hk].
+  Qed.
+
+  (* ---- progress: a call that is scheduled often enough delivers ---- *)
+  Definition remaining (c : dcall) : nat :=
+    match dc_out c with
+    | Some _ => 0
+    | None => match dc_node c with
+              | None => 2 + length (dc_todo c)
+              | Some _ => 1 + length (dc_todo c)
+              end
+    end.
+
+  Lemma remaining_step : forall c, remaining (step_own c) = pred (remaining c).
+  Proof.
+    intros c; unfold remaining, Payloads.step_own.
+    destruct (dc_out c) eqn:Eo; [rewrite Eo; reflexivity |].
+    destruct (dc_node c) eqn:En; [destruct (dc_todo c) eqn:Et |]; cbn; reflexivity.
+  Qed.
+
+  Lemma nth_upd_nth_same : forall (X : Type) (f : X -> X) i l x,
+    nth_error l i = Some x -> nth_error (upd_nth i f l) i = Some (f x).
+  Proof.
+    intros X f i; induction i as [|i IH]; intros [|y l] x H; cbn in *; try discriminate.
+    - injection H as <-; reflexivity.
+    - auto.
+  Qed.
+
+  Lemma nth_upd_nth_other : forall (X : Type) (f : X -> X) j i l,
+    i <> j -> nth_error (upd_nth j f l) i = nth_error l i.
+  Proof.
+    intros X f j; induction j as [|j IH]; intros i [|y l] H; cbn; try reflexivity.
+    - destruct i; [congruence | reflexivity].
+    - destruct i; [reflexivity | cbn; apply IH; congruence].
+  Qed.
+
+  Lemma remaining_run : forall sched cs i c,
+    nth_error cs i = Some c ->
+    exists c', nth_error (run_own sched cs) i = Some c' /\
+               remaining c' = remaining c - count_occ Nat.eq_dec sched i.
+  Proof.
+    induction sched as [|j sched IH]; intros cs i c H.
+    - exists c; split; [exact H | cbn; lia].
+    - unfold Payloads.run_own; cbn [fold_left count_occ].
+      destruct (Nat.eq_dec j i) as [->|Hne].
+      + destruct (IH (upd_nth i step_own cs) i (step_own c) (nth_upd_nth_same _ _ _ _ _ H)) as (c' & Hc' & Hr).
+        exists c'; split; [exact Hc' |]. rewrite Hr, remaining_step. lia.
+      + assert (H' : nth_error (upd_nth j step_own cs) i = Some c)
+          by (rewrite nth_upd_nth_other; [exact H | congruence]).
+        destruct (IH _ i c H') as (c' & Hc' & Hr). exists c'; split; assumption.
+  Qed.
+
+  Lemma remaining_zero : forall c, remaining c = 0 -> exists k, dc_out c = Some k.
+  Proof.
+    intros c; unfold remaining. destruct (dc_out c); [eauto |]. destruct (dc_node c); discriminate.
+  Qed.
+
+  (* FAIR schedules deliver, and deliver the stand-alone value: any schedule in which call i gets its
+     [steps_of] steps (in any positions, interleaved with anything) *)
+  Theorem own_node_fair_delivers : forall (inits : list (S * list L)) (sched : list nat) i sl,
+    nth_error inits i = Some sl ->
+    steps_of L S sl <= count_occ Nat.eq_dec sched i ->
+    exists c, nth_error (run_own sched (map (dcall_init K L S) inits)) i = Some c /\
+              dc_out c = Some (derive_seq (fst sl) (snd sl)).
+  Proof.
+    intros inits sched i sl Hsl Hcnt.
+    assert (H0 : nth_error (map (dcall_init K L S) inits) i = Some (dcall_init K L S sl))
+      by (rewrite nth_error_map, Hsl; reflexivity).
+    destruct (remaining_run sched _ i _ H0) as (c & Hc & Hr).
+    exists c; split; [exact Hc |].
+    assert (Hz : remaining c = 0).
+    { rewrite Hr. change (remaining (dcall_init K L S sl)) with (steps_of L S sl). lia. }
+    destruct (remaining_zero c Hz) as (k & Hk).
+    destruct (own_node_schedule_independent inits sched i c k Hc Hk) as (sl' & Hsl' & ->).
+    rewrite Hsl in Hsl'; injection Hsl' as <-. exact Hk.
+  Qed.
+End DerivationFacts.
+
+(* ---- the results of overlapping derivations against every contact's own derivation ---- *)
+Section ConcSpec.
+  Variable rk_of : skey -> N.
+  Variable dh : N -> N -> N.
+  Variable kle : N -> N -> bool.
+  Hypothesis dh_comm : forall a b, dh a b = dh b a.
+  Hypothesis kle_total : forall a b, kle a b = true \/ kle b a = true.
+  Hypothesis kle_antisym : forall a b, kle a b = true -> kle b a = true -> a = b.
+
+  Lemma spec_conc_pairs : forall (eqs : N -> N -> list bool) reqs contacts,
+    (forall b, forallb (fun x => x) (eqs b b) = true) ->
+    (forall b b', b <> b' -> forallb negb (eqs b b') = true) ->
+    spec_C13_conc (conc_pairs eqs reqs contacts) = true.
+  Proof.
+    intros eqs reqs contacts Hsame Hdiff; unfold spec_C13_conc, conc_pairs.
+    apply forallb_forall; intros [s l] Hin.
+    apply in_flat_map in Hin; destruct Hin as (b & _ & Hin).
+    apply in_map_iff in Hin; destruct Hin as (b' & E & _). injection E as <- <-. cbn [fst snd].
+    destruct (N.eqb b b') eqn:Eb.
+    - apply N.eqb_eq in Eb; subst b'. apply Hsame.
+    - apply N.eqb_neq in Eb. apply Hdiff; exact Eb.
+  Qed.
+
+  (* payloads: what a derives for b (while deriving for others) against what b' derives for a *)
+  Lemma model_spec_conc_oto : forall a st reqs contacts,
+    spec_C13_conc (conc_pairs (fun b b' => tp_eqs (one_to_one rk_of dh kle a b st) (one_to_one rk_of dh kle b' a st))
+                              reqs contacts) = true.
+  Proof.
+    intros a st reqs contacts; apply spec_conc_pairs.
+    - intros b. pose proof (model_spec_oto rk_of dh kle dh_comm kle_total kle_antisym a b b st) as H.
+      unfold spec_C13_oto in H. apply andb_true_iff in H; destruct H as [H _]. exact H.
+    - intros b b' Hne.
+      rewrite <- (one_to_one_symmetric rk_of dh kle dh_comm kle_total kle_antisym a b' st).
+      pose proof (model_spec_oto rk_of dh kle dh_comm kle_total kle_antisym a b b' st) as H.
+      unfold spec_C13_oto in H. apply andb_true_iff in H; destruct H as [_ H].
+      destruct (N.eqb b b') eqn:Eb; [apply N.eqb_eq in Eb; contradiction | exact H].
+  Qed.
+
+  (* keys of the three derivation paths *)
+  Lemma model_spec_conc_keys : forall a reqs contacts,
+    spec_C13_conc (conc_pairs (fun b b' => keys_eqs dh kle a b b' a) reqs contacts) = true.
+  Proof.
+    intros a reqs contacts; apply spec_conc_pairs.
+    - intros b; unfold keys_eqs, oto_paths; cbn [map forallb].
+      rewrite !(shared_key_sym dh kle dh_comm kle_total kle_antisym a b), !skey_eqb_refl. reflexivity.
+    - intros b b' Hne; unfold keys_eqs, oto_paths; cbn [map forallb].
+      assert (D : forall p, skey_eqb (shared_key dh kle a b p) (shared_key dh kle b' a p) = false).
+      { intro p. destruct (skey_eqb _ _) eqn:E; [| reflexivity].
+        apply skey_eqb_eq in E. apply shared_key_pair in E.
+        destruct E as [[X Y]|[_ Y]]; exfalso; apply Hne; congruence. }
+      rewrite !D. reflexivity.
+  Qed.
+End ConcSpec.
+
+(* ONE shared node buffer is NOT schedule independent: two overlapping calls, second starts after the first
+   computed its master node — the first call continues from the second call's chain code.  (Free HMAC:
+   a node is the list of everything hashed into it.) *)
+Definition free_master (s : N) : list N := [s].
+Definition free_child (k : list N) (l : N) : list N := k ++ [l].
+
+Lemma shared_buffer_schedule_dependent :
+  exists (inits : list (N * list N)) (sched : list nat) c,
+    nth_error (snd (run_shared (list N) N N free_master free_child sched
+                      (map (dcall_init (list N) N N) inits))) 0 = Some c /\
+    dc_out c <> None /\
+    dc_out c <> Some (derive_seq (list N) N N free_master free_child 7%N [1%N; 2%N]).
+Proof.
+  exists [(7%N, [1%N; 2%N]); (8%N, [1%N; 2%N])], [0; 1; 0; 0; 0]%nat.
+  eexists; split; [vm_compute; reflexivity |]. split; intro H; discriminate H.
+Qed.
